@@ -103,12 +103,15 @@ def _replay(case, seed):
 
 
 def subchecks(tier, seed):
-    banks = ["gabor", "gammatone", "gammatone_mc", "gabor3"]
+    banks = ["gabor", "gammatone", "gammatone_mc", "gabor3", "tri"]
     if tier == "thorough":
-        banks += ["tri"]
+        banks += ["tri_an"]
     pts = []
     for b in banks:
-        for S in (range(1, 7) if tier == "quick" else range(1, 10)):
+        shifts = range(1, 7) if tier == "quick" else range(1, 10)
+        if b in ("tri", "tri_an") and tier == "quick":
+            shifts = (1, 2, 5)   # real bank: unpadded DFT sizes 101 (odd), 102, 105
+        for S in shifts:
             for style in ("causal", "centered"):
                 for pad in (True, False):
                     for w in ("hamming", None):
